@@ -49,16 +49,30 @@ static int avl_cmp(const void *a, const void *b)
 	intptr_t x = (intptr_t)a, y = (intptr_t)b;
 	return x < y ? -1 : (x > y ? 1 : 0);
 }
-static int g_parent_bad;
-static void avl_dump(muggle_avl_tree_node_t *n, muggle_avl_tree_node_t *parent)
+/* node identities: the n-th node ever returned by muggle_avl_tree_insert for this tree has
+ * id n (an address that is freed and handed out again gets the new id) */
+#define ID_SLOTS (1u << 16)
+static struct { const void *p; long id; } g_ids[ID_SLOTS];
+static long g_next_id;
+static unsigned id_slot(const void *p)
+{
+	unsigned h = (unsigned)(((uintptr_t)p >> 4) * 2654435761u) & (ID_SLOTS - 1);
+	while (g_ids[h].p && g_ids[h].p != p) h = (h + 1) & (ID_SLOTS - 1);
+	return h;
+}
+static void id_assign(const void *p) { unsigned h = id_slot(p); g_ids[h].p = p; g_ids[h].id = g_next_id++; }
+static long id_of(const void *p) { unsigned h = id_slot(p); return g_ids[h].p ? g_ids[h].id : -1; }
+static void id_reset(void) { memset(g_ids, 0, sizeof(g_ids)); g_next_id = 0; }
+
+static void avl_dump(muggle_avl_tree_node_t *n)
 {
 	if (!n) { printf("-"); return; }
-	if (n->parent != parent) g_parent_bad = 1;
-	printf("(%lld %llu %d ", (long long)(intptr_t)n->key,
-		(unsigned long long)(uintptr_t)n->value, (int)n->balance);
-	avl_dump(n->left, n);
+	printf("(%lld %llu %d #%ld ^", (long long)(intptr_t)n->key,
+		(unsigned long long)(uintptr_t)n->value, (int)n->balance, id_of(n));
+	if (n->parent) printf("%ld ", id_of(n->parent)); else printf("- ");
+	avl_dump(n->left);
 	printf(" ");
-	avl_dump(n->right, n);
+	avl_dump(n->right);
 	printf(")");
 }
 /* returns height; flags: 1 order, 2 balance field, 4 height difference, 8 parent link */
@@ -139,6 +153,7 @@ static void vh_op(int argc, char **argv)
 	if (strcmp(op, "ainit") == 0 && argc == 2) {
 		if (g_avl) { muggle_avl_tree_destroy(g_avl, NULL, NULL, NULL, NULL); free(g_avl); g_avl = NULL; }
 		g_avl = (muggle_avl_tree_t *)malloc(sizeof(*g_avl));
+		id_reset();
 		if (!muggle_avl_tree_init(g_avl, avl_cmp, (size_t)vh_ull(argv[1]))) {
 			free(g_avl); g_avl = NULL;
 			printf("fail\n");
@@ -150,6 +165,7 @@ static void vh_op(int argc, char **argv)
 		if (strcmp(op, "ains") == 0 && argc == 3) {
 			muggle_avl_tree_node_t *n = muggle_avl_tree_insert(g_avl,
 				(void *)(intptr_t)vh_ll(argv[1]), (void *)(uintptr_t)vh_ull(argv[2]));
+			if (n) id_assign(n);
 			printf("%d\n", n ? 1 : 0);
 		} else if (strcmp(op, "afind") == 0 && argc == 2) {
 			muggle_avl_tree_node_t *n = muggle_avl_tree_find(g_avl, (void *)(intptr_t)vh_ll(argv[1]));
@@ -161,9 +177,8 @@ static void vh_op(int argc, char **argv)
 			if (n) muggle_avl_tree_remove(g_avl, n, NULL, NULL, NULL, NULL);
 			printf("%d\n", n ? 1 : 0);
 		} else if (strcmp(op, "adump") == 0 && argc == 1) {
-			g_parent_bad = 0;
-			avl_dump(g_avl->root, NULL);
-			printf("%s\n", g_parent_bad ? " bad-parent" : "");
+			avl_dump(g_avl->root);
+			printf("\n");
 		} else if (strcmp(op, "achk") == 0 && argc == 1) {
 			int flags = 0; long count = 0;
 			avl_check(g_avl->root, NULL, 0, 0, 0, 0, &flags, &count);
